@@ -80,6 +80,15 @@ CHECKS = {
         "check decode(encode(m)) = m with and without repair, encoder linearity and that rows/columns of codewords are Hamming words.",
         "2^96 messages via basis + linearity + translation invariance observed on random codewords; R(3) handling of repair_if_necessary not judged.",
     ),
+    "C09": (
+        "DESIGN.md 5/C09",
+        "observations of the three variable-length BPTC encoders/extractors judged by TLC against the matrix rules (VBPTC.tla): exhaustive for (32,11), basis + every checksum value + random for (128,72)/(68,28)",
+        "For every sample TLC rebuilds the transmitted matrix from the ETSI layout, checks that every data row is a Hamming word "
+        "(parity-check columns learned through the public API), every column satisfies its parity rule, the extractor returns the "
+        "message, the checksum read back equals the computed one (and the spec's own 5-bit checksum), and that the three encoder "
+        "entry forms agree. (32,11): all 2^11 messages x both parities.",
+        "Layouts are the spec's reading of ETSI B.2 (for (32,11) as tabulated in the library); (128,72)/(68,28) message spaces are sampled (unit messages, all 31 CS5 values, random).",
+    ),
 }
 
 NOT_YET = {}
